@@ -41,6 +41,15 @@ CFG = {
             "not an object beyond; parser side decimal_token_denotes): 20 digit strings around 2^127-1 (last digit decides, one digit more / fewer, 10^37..10^39, 2^128+5, i64 boundaries) split "
             "into integer and fraction part at 6 places (thorough: every place), fractions of 1/18/36..40 zeros (+ `1`, `99`) after numerators ``, 0, 7, 17, and 5 ordinary tokens; signs, leading "
             "zeros, leads, following contexts and array / dictionary / would-be-reference positions as for the point-free tokens; corpus decimal_literals.case (21 hand-built); "
+            "ZERO PADDING (`pad` cases, corpus zero_padding.case 44 hand-built; leading zeros never change what a digit string denotes - Spells.int/.real/.ref: ANY non-empty digit string whose VALUE fits): "
+            "0..45 leading zeros (every count: the digit run crosses 19|20 = length of i64::MAX and 38|39 = length of i128::MAX whatever the value's own length) in front of EVERY integer position: "
+            "object number, generation, and both numbers of a reference (6 bases incl. 0 0, 1 65535, i64::MAX i64::MAX; 8 whitespace/comment separators); a signed integer (10 magnitudes 0..2^127, sign -/+/none); "
+            "the integer part of a signed real (9 tokens incl. empty integer part, `12.`, 39-digit numerators, 38/39 fraction zeros) - each bare before the generator's following contexts (quick 4 of 15 rotating, thorough all) "
+            "and as array element / single element / twice in an array / dictionary value (last, not last) / array in a dictionary / dictionary in an array (quick: a third of the bases and one sign per padding, rotating; thorough: all); "
+            "VALUE sweep of references: object numbers 10^k-1 and 10^k for k = 1..20, 65535/65536, 2^31, 2^32(+-), 2^53, 2^63-2, 2^63-1 | 2^63.., 2^64(+-), 2^127(-1), 10^39 x generations 0, 1, 9, 10, 255, 256, 65534..65537, 99999, 100000, "
+            "2^31(-1), 2^32(-1,+5), 10^18, 2^63-1 | 2^63, 2^64(+5), 2^127(-1), 10^39 (quick: 2 generations per object number + every generation with 12 and i64::MAX; thorough: full cross), each as written and with the object number, "
+            "the generation, and both padded to exactly 19/20/38/39/40 digits, in all the positions above; oracle `refDenote` (Driver/C02.lean, spec side: the reference (value, value) iff both values <= i64::MAX; otherwise at the top level "
+            "the first token alone by NumLit.denote, inside an array / dictionary not an object); and every random value that contains a number once more, spelled by `padSpell` (the encoder's freedoms + 0..45 zeros per integer position at any depth). "
             "random values (depth <= 4; boundary integers, reals, names/strings over delimiters, escapes and high bytes, references, arrays, "
             "dictionaries) x random encoder choices (whitespace/comment runs, #hh vs raw and hex case, literal vs hex strings, hex whitespace, "
             "odd-digit shorthand, signs, leading zeros, entry order, null-valued entries) x 15 following contexts x depth slack 0..2; one "
@@ -51,7 +60,7 @@ CFG = {
             "(model of a view = model of its window: Parsley.C17.view_refines_copy); classes of rejected view cases carry the prefix `view-`. What lies behind the window continues the text: behind a truncated spelling the rest of it, "
             "otherwise more digits, ` 0 R` / ` 2 R`, `.5`, regular characters, `#41`, closing delimiters; one `sp`/`lit` twin in three has its window END WITH THE SPELLING (the case's following context, then the continuation, lie behind it: "
             "the end of the view is the delimiter, e.g. `12` | ` 0 R`). CUT family (view only): 10 fixed + 40 (thorough 400) random legal spellings cut at EVERY byte, the rest and a following context behind the window: whatever is accepted must lie "
-            "inside the window, and a string / array / dictionary without its closing delimiter must be rejected (`cut-accepted`). Per tier: quick 12262 ordinary + 12262 view twins + 1210 cuts, thorough 339112 + 339112 + 9034. "
+            "inside the window, and a string / array / dictionary without its closing delimiter must be rejected (`cut-accepted`). Per tier: quick 32157 ordinary (19895 of them zero-padding / reference-value cases: 18210 swept + 1685 random) + 32157 view twins + 1210 cuts, thorough 564058 (224946: 161768 + 63178) + 564058 + 9034. "
             "non-trivial = spelling of >= 4 bytes (distinct by case hash; a view case counts when there are bytes in front of or behind the window)",
     "trusted_base": COMMON_TB + ["modelled, not verified: ParseBuffer primitives as list functions; the relational spec `Spells` defines what a legal spelling is (the encoder `spell` used as generator is proved to produce legal spellings on its whole domain `wfDeep`; every generated value is checked to lie in `wfDeep` at generation time and at build time)"],
     "assumptions": ["integers of the value type handed to the encoder range over -(2^63-1)..2^63-1 (IntegerP has no spelling for i64::MIN; through parse_pdf_obj `-9223372036854775808` does parse, as the Integer i64::MIN, "
